@@ -38,7 +38,7 @@ caught=""
 if [ $valid = yes ]; then
   git -C /repo apply $OUT/patch.diff
   for c in $CHECKS; do
-    /verif/bin/check $c --tier quick > $OUT/check-$c.log 2>&1; rc=$?
+    ${VERIF_BIN:-/verif/bin/check} $c --tier quick > $OUT/check-$c.log 2>&1; rc=$?
     sigs=$(grep -E "^  sig=" $OUT/check-$c.log | head -3 | tr '\n' ' ')
     res "check=$c tier=quick exit=$rc $sigs"
     [ $rc = 1 ] && caught="$caught $c"
